@@ -7,6 +7,7 @@ import sys
 pid = sys.argv[1]
 n = int(sys.argv[2]) if len(sys.argv) > 2 else 3
 tag = sys.argv[3] if len(sys.argv) > 3 else ""
+extra = (" " + sys.argv[4]) if len(sys.argv) > 4 else ""
 for line in open("/verif/properties.jsonl"):
     p = json.loads(line)
     if p["id"] == pid:
@@ -17,7 +18,7 @@ The property under test:
 
 Property {pid}: {p['title']}. {p['statement']} (Quantified over: {p['quantifier']['text']}. Code: {', '.join(p['anchors']['files'])}.)
 
-Produce {n} independent, realistic source changes (the kind of bug a developer could plausibly introduce in a refactor, an "optimisation" or a feature tweak), each of which BREAKS this property while the project still compiles and the existing test suite (`cargo test --workspace --offline`) still passes entirely. Prefer changes that need something specific to manifest — a particular boundary value or size, an unusual input shape, a multi-step sequence of operations, a particular interleaving or fault at a particular point, or two cooperating sites that each look fine alone — NOT changes that ordinary use would expose at once. Make the changes different in kind and, where the property has several clauses or several code sites, spread them over different clauses and files.
+Produce {n} independent, realistic source changes (the kind of bug a developer could plausibly introduce in a refactor, an "optimisation" or a feature tweak), each of which BREAKS this property while the project still compiles and the existing test suite (`cargo test --workspace --offline`) still passes entirely. Prefer changes that need something specific to manifest — a particular boundary value or size, an unusual input shape, a multi-step sequence of operations, a particular interleaving or fault at a particular point, or two cooperating sites that each look fine alone — NOT changes that ordinary use would expose at once. Make the changes different in kind and, where the property has several clauses or several code sites, spread them over different clauses and files.{extra}
 
 For each change i = 1..{n} write into `/tmp/seed{tag}_{pid}/`:
  - `patch<i>.diff`: the change as a unified diff relative to the worktree's HEAD (`git diff` output; it must apply with `git apply` at the repository root);
